@@ -404,9 +404,21 @@ def evo_op(b, rng, fail, fail_kinds=None):
         elif f == "tip_any":
             op["tips"] = [("member", -1)] + tips[1:]
         elif f == "columns" and C > 1 and k > 1:
-            c2 = (c + 1) % C
+            # one (first / middle / last) or several wells moved to another column; the IDs stay in ascending order,
+            # so only the single-column rule can refuse the call
+            c2 = rng.choice([x for x in range(C) if x != c])
             ws = list(wells)
-            ws[-1] = str(W[rows[-1], c2])
+            where = rng.choice(["last", "first", "middle", "several"])
+            if where == "middle" and k > 2:
+                j = rng.randint(1, k - 2)
+                ws[j] = str(W[rows[j], c2])
+            elif where == "first":
+                ws[0] = str(W[rows[0], c2])
+            elif where == "several" and k > 2:
+                for j in rng.sample(range(k), rng.randint(1, k - 1)):
+                    ws[j] = str(W[rows[j], c2])
+            else:
+                ws[-1] = str(W[rows[-1], c2])
             op["wells"] = ("V", ws)
         elif f == "grid":
             op["grid"] = rng.choice([0, 68, -1, proto.Bad(1.5)])
@@ -1886,17 +1898,31 @@ def run_C14(ctx):
     rng = ctx.rng
     cases = []
     fragile = 0
-    for _ in range(ctx.n(220)):
-        R = rng.choice([1, 2, 3, 4, 8, 16]) if rng.random() < 0.8 else rng.randint(1, 16)
-        C = rng.choice([1, 2, 3, 4, 6, 12, 24]) if rng.random() < 0.8 else rng.randint(1, 24)
-        stock = F(rng.choice([10, 20, 100, 50, 1000, 12]))
-        xmax = stock if rng.random() < 0.4 else stock / rng.choice([2, 4, 10])
-        xmin = xmax / rng.choice([2, 10, 100, 1000, 10000])
-        mode = rng.choice(["log", "linear"])
-        vmax = F(rng.choice([100, 200, 1000, 950, 300, 1500])) if rng.random() < 0.7 else [F(rng.choice([100, 200, 1000, 500])) for _ in range(C)]
-        if rng.random() < 0.15:
-            vmax = F(rng.choice([201, 1001, 1005])) / 2      # non-integer vmax
-        minT = F(rng.choice([1, 5, 10, 20, 30, 60]))
+    for _ in range(ctx.n(560)):
+        stress = rng.random() < 0.6
+        res.dist["dilution:budget-stress" if stress else "dilution:general"] += 1
+        if stress:
+            # budget stress: several later columns compete for one source column and the rows of a column need
+            # clearly different volumes (linear spacing), so that the per-well budget of a source is what decides
+            R = rng.choice([2, 3, 4, 8])
+            C = rng.choice([4, 5, 6, 8, 12])
+            stock = F(rng.choice([10, 20, 100, 50]))
+            xmax = stock / rng.choice([2, 4, 5, 10])
+            xmin = xmax / rng.choice([4, 10, 20, 50])
+            mode = "linear" if rng.random() < 0.85 else "log"
+            vmax = F(rng.choice([100, 200, 150])) if rng.random() < 0.8 else [F(rng.choice([100, 200, 150])) for _ in range(C)]
+            minT = F(rng.choice([10, 15, 20, 25, 30, 40]))
+        else:
+            R = rng.choice([1, 2, 3, 4, 8, 16]) if rng.random() < 0.8 else rng.randint(1, 16)
+            C = rng.choice([1, 2, 3, 4, 6, 12, 24]) if rng.random() < 0.8 else rng.randint(1, 24)
+            stock = F(rng.choice([10, 20, 100, 50, 1000, 12]))
+            xmax = stock if rng.random() < 0.4 else stock / rng.choice([2, 4, 10])
+            xmin = xmax / rng.choice([2, 10, 100, 1000, 10000])
+            mode = rng.choice(["log", "linear"])
+            vmax = F(rng.choice([100, 200, 1000, 950, 300, 1500])) if rng.random() < 0.7 else [F(rng.choice([100, 200, 1000, 500])) for _ in range(C)]
+            if rng.random() < 0.15:
+                vmax = F(rng.choice([201, 1001, 1005])) / 2      # non-integer vmax
+            minT = F(rng.choice([1, 5, 10, 20, 30, 60]))
         kw = dict(xmin=float(xmin), xmax=float(xmax), R=R, C=C, stock=float(stock), mode=mode,
                   vmax=float(vmax) if not isinstance(vmax, list) else [float(v) for v in vmax], min_transfer=float(minT))
         plan, err = None, None
